@@ -21,3 +21,37 @@ MANIFEST = dict(
     technique="Coq proof of canonical-bijection laws + model/implementation correspondence (extracted OCaml vs Go, exhaustive short inputs)",
     design_ref="DESIGN.md §4 C12",
 )
+
+
+def coq_crosscheck(lines):
+    """the sampled Go results re-checked against the model evaluated by vm_compute inside coqc"""
+    def bl(hx):
+        if hx == "-":
+            return "[]"
+        return "[" + "; ".join(str(int(hx[i:i + 2], 16)) for i in range(0, len(hx), 2)) + "]"
+    encs, decs = [], []
+    for l in lines:
+        inp, out = l.split(" | ")
+        t = inp.split()
+        out = out.strip()
+        if t[0] == "enc":
+            encs.append("(%s, %s)" % (t[2], bl(out)))
+        else:
+            if out == "err":
+                decs.append("(%s, None)" % bl(t[2]))
+            else:
+                _, v, n = out.split()
+                decs.append("(%s, Some (%s, %s))" % (bl(t[2]), v, n))
+    return """From JamV Require Import Base.Bytes Model.NatCodec Proofs.BytesP.
+Local Open Scope N_scope.
+Definition encs : list (N * bytes) := [%s].
+Definition decs : list (bytes * option (N * N)) := [%s].
+Definition chk_enc (c : N * bytes) := bytes_eqb (enc_nat (fst c)) (snd c).
+Definition chk_dec (c : bytes * option (N * N)) :=
+  match dec_nat (fst c), snd c with
+  | None, None => true
+  | Some (x, r), Some (v, n) => (x =? v) && (N.of_nat (length (fst c) - length r) =? n)
+  | _, _ => false
+  end.
+Eval vm_compute in (forallb chk_enc encs && forallb chk_dec decs).
+""" % ("; ".join(encs), "; ".join(decs))
